@@ -416,6 +416,27 @@ def searchable_groups(spec, fixed: Optional[set] = None):
     return out
 
 
+def owner_groups(spec, fixed: Optional[set] = None):
+    """All width groups that contain the output of at least one convertible (non-fixed) defining
+    layer: {rep: (width, is_frozen)}.  Patterns are drawn for ALL of them; a correct
+    implementation ignores what is written into the parameters of frozen groups."""
+    shapes = infer_shapes(spec)
+    fixed = fixed or set()
+    group_of, frozen, members = width_groups(spec, fixed)
+    out = {}
+    for g, mem in members.items():
+        owners = []
+        for t in mem:
+            if t[0] != 'n':
+                continue
+            src = resolve(spec, node_by_id(spec, t))
+            if src['op'] in LAYER_OPS and not is_dw(src) and src['id'] not in fixed:
+                owners.append(t)
+        if owners:
+            out[g] = (shapes[owners[0]][0], g in frozen)
+    return out
+
+
 def alive_masks(spec, group_masks: Dict[str, List[bool]], fixed: Optional[set] = None):
     """Reference alive-feature propagation.
 
@@ -642,6 +663,11 @@ def netspecs(draw, prof: Profile):
         elif kind == 'pool':
             t = b.add(draw(st.sampled_from(['avgpool', 'maxpool'])), [t])
         elif kind == 'bn':
+            # a BN directly after a conv/linear would be fused (it is then not stand-alone, and a
+            # second BN right behind a fused one is outside the supported patterns)
+            prod = None if t.startswith('x') else node_by_id({'nodes': b.nodes}, t)
+            if prod is None or prod['op'] in LAYER_OPS + ('reuse', 'bn'):
+                t = b.act(t)
             t = b.add('bn', [t])
         elif kind == 'res_id':
             # t' = t + f(t), f keeps the shape; t must have a maskable / frozen channel width
